@@ -21,10 +21,34 @@ const (
 	PUniEsc
 	PUniBrace
 	PLineCont
+	PLegacyOctal
+	PIdentityNonASCII
 	nPieceFamilies
 )
 
-var PieceFamilyNames = []string{"raw", "raw-nonascii", "other-quote", "simple-escape", "identity-escape", "hex-escape", "unicode-escape", "unicode-brace-escape", "line-continuation"}
+var PieceFamilyNames = []string{"raw", "raw-nonascii", "other-quote", "simple-escape", "identity-escape", "hex-escape", "unicode-escape", "unicode-brace-escape", "line-continuation", "legacy-octal-escape", "identity-escape-nonascii"}
+
+// OctalPiece is a legacy octal escape: a backslash and one to three octal
+// digits (three only when the first is 0-3), as sloppy-mode scripts allow.
+func OctalPiece(digits string) ir.Piece {
+	v := 0
+	for _, d := range digits {
+		v = v*8 + int(d-'0')
+	}
+	return ir.Piece{Src: "\\" + digits, Units: []uint16{uint16(v)}}
+}
+
+func isOctalEscape(src string) bool {
+	if len(src) < 2 || len(src) > 4 || src[0] != '\\' {
+		return false
+	}
+	for _, c := range src[1:] {
+		if c < '0' || c > '7' {
+			return false
+		}
+	}
+	return true
+}
 
 var simpleEsc = map[byte]uint16{'n': 10, 't': 9, 'r': 13, 'b': 8, 'f': 12, 'v': 11, '0': 0, '\\': '\\', '\'': '\'', '"': '"'}
 var simpleEscOrder = []byte{'n', 't', 'r', 'b', 'f', 'v', '0', '\\', '\'', '"'}
@@ -65,7 +89,29 @@ func UniBracePiece(v int, width int, upper bool) ir.Piece {
 
 // Piece draws one string piece valid inside a literal quoted with q.
 func (r R) Piece(q byte) (ir.Piece, int) {
-	switch fam := r.Pick("piecefam", 30, 8, 8, 12, 6, 10, 10, 8, 3); fam {
+	switch fam := r.Pick("piecefam", 30, 8, 8, 12, 6, 10, 10, 8, 3, 3, 2); fam {
+	case PLegacyOctal:
+		d1 := r.Intn(8, "od1")
+		digits := string(rune('0' + d1))
+		maxLen := 3
+		if d1 >= 4 {
+			maxLen = 2
+		}
+		for k := 1; k < maxLen && r.Intn(3, "omore") > 0; k++ {
+			digits += string(rune('0' + r.Intn(8, "od")))
+		}
+		return OctalPiece(digits), fam
+	case PIdentityNonASCII:
+		// a backslash in front of a non-ASCII character is an identity escape;
+		// in front of U+2028/U+2029 it is a line continuation
+		switch r.Intn(6, "idna") {
+		case 0:
+			return ir.Piece{Src: "\\\u2028", Units: nil}, fam
+		case 1:
+			return ir.Piece{Src: "\\\u2029", Units: nil}, fam
+		}
+		c := rawNonASCII[r.Intn(len(rawNonASCII), "nonascii")]
+		return ir.Piece{Src: "\\" + string(c), Units: utf16Of(c)}, fam
 	case PRaw:
 		c := rawASCII[r.Intn(len(rawASCII), "rawc")]
 		return ir.Piece{Src: string(c), Units: []uint16{uint16(c)}}, fam
@@ -131,7 +177,7 @@ func (r R) Piece(q byte) (ir.Piece, int) {
 func fixSeq(ps []ir.Piece) []ir.Piece {
 	out := ps[:0]
 	for i, p := range ps {
-		if i > 0 && out[len(out)-1].Src == "\\0" && len(p.Src) > 0 && p.Src[0] >= '0' && p.Src[0] <= '9' {
+		if i > 0 && isOctalEscape(out[len(out)-1].Src) && len(p.Src) > 0 && p.Src[0] >= '0' && p.Src[0] <= '9' {
 			out = append(out, ir.Piece{Src: "-", Units: []uint16{'-'}})
 		}
 		out = append(out, p)
@@ -167,6 +213,10 @@ func PieceFamilies(n *ir.Node) map[string]bool {
 			m["unicode-escape"] = true
 		case p.Src == "\\\n" || p.Src == "\\\r\n":
 			m["line-continuation"] = true
+		case isOctalEscape(p.Src) && p.Src != "\\0":
+			m["legacy-octal-escape"] = true
+		case len(p.Src) > 1 && p.Src[0] == '\\' && p.Src[1] >= 0x80:
+			m["identity-escape-nonascii"] = true
 		case strings.HasPrefix(p.Src, "\\"):
 			if _, ok := simpleEsc[p.Src[1]]; ok {
 				m["simple-escape"] = true
